@@ -22,7 +22,9 @@ func init() {
 
 const c07Prelude = `
 var O=[], L=[], R=[], SP=[];
-var NAMES=['a','b','c','constructor','prototype','length','name','caller','message','stack','lastIndex','source','global','ignoreCase','multiline'];
+var NAMES=['a','b','c','constructor','prototype','length','name','caller','message','stack','lastIndex','source','global','ignoreCase','multiline','0','1','callee'];
+var GLOBAL=this;
+function OG(n){ var r=(hop.call(GLOBAL,n)?V(GLOBAL[n]):'0')+'/'+B(n in GLOBAL)+B(hop.call(GLOBAL,n))+B(pie.call(GLOBAL,n))+'/'+G(GLOBAL,n); var l=L.length?L.join(','):'-'; L=[]; return l+'|'+r; }
 var hop=Object.prototype.hasOwnProperty, pie=Object.prototype.propertyIsEnumerable;
 function mk(k){ return function(v){ if(arguments.length>0){ L.push(k+'.'+O.indexOf(this)+'.'+V(v)); } return 100+10*O.indexOf(this)+k; }; }
 var F=[mk(0),mk(1),mk(2)];
@@ -102,7 +104,7 @@ func c07san(s string) string {
 	return s
 }
 
-var c07Names = []string{"a", "b", "c", "constructor", "prototype", "length", "name", "caller", "message", "stack", "lastIndex", "source", "global", "ignoreCase", "multiline"}
+var c07Names = []string{"a", "b", "c", "constructor", "prototype", "length", "name", "caller", "message", "stack", "lastIndex", "source", "global", "ignoreCase", "multiline", "0", "1", "callee"}
 
 func c07ValLit(code string) string {
 	n, err := strconv.Atoi(code)
@@ -306,12 +308,124 @@ func c07Script(toks []string) string {
 	return b.String()
 }
 
+// c07ArgScript renders one arguments-object history: f(x,y) called as f(1,2), every step and every
+// observation runs inside the call so that x, y and `arguments` are the live ones.
+func c07ArgScript(toks []string) string {
+	var b strings.Builder
+	b.WriteString("R=[];L=[];SP=[];\n(function(x,y){ var A=arguments; O=[A];\n")
+	b.WriteString(`function AStep(f){ var out; L=[]; try{ out=f(); }catch(e){ out=(e instanceof TypeError)?'T':'E:'+e.name; }
+  var ns=Object.getOwnPropertyNames(A), on=['0','1','length','callee','a'], per=[];
+  for(var j=0;j<on.length;j++){ var n=on[j]; per.push(V(A[n])+'/'+B(n in A)+B(hop.call(A,n))+B(pie.call(A,n))+'/'+G(A,n)); }
+  R.push([out, L.length?L.join(','):'-', V(x)+'.'+V(y), B(Object.isExtensible(A))+B(Object.isSealed(A))+B(Object.isFrozen(A))+':'+NL(ns)+':'+per.join(',')].join('|')); }
+`)
+	for i, tok := range toks {
+		f := strings.Split(tok, ".")
+		alt := i%4 == 3
+		body := ""
+		switch f[0] {
+		case "A":
+			v := "x"
+			if f[1] == "1" {
+				v = "y"
+			}
+			body = v + "=" + c07ValLit(f[2]) + ";return 'ok';"
+		case "P":
+			body = fmt.Sprintf("A['%s']=%s;return 'ok';", c07Name(f[1]), c07ValLit(f[2]))
+		case "X":
+			body = fmt.Sprintf("return (delete A['%s'])?'t':'f';", c07Name(f[1]))
+		case "D":
+			body = fmt.Sprintf("Object.defineProperty(A,'%s',%s);return 'ok';", c07Name(f[1]), c07Desc(f[2:], alt))
+		case "F":
+			body = "Object.freeze(A);return 'ok';"
+		case "S":
+			body = "Object.seal(A);return 'ok';"
+		case "E":
+			body = "Object.preventExtensions(A);return 'ok';"
+		default:
+			panic("bad op " + tok)
+		}
+		b.WriteString("AStep(function(){" + body + "});\n")
+	}
+	b.WriteString("})(1,2);\nR.length?R.join(';'):'-';\n")
+	return b.String()
+}
+
+var c07GCounter uint64
+var c07GMu sync.Mutex
+
+// implC07Global runs one global-binding history: every op is a program of its own on the same VM, the global
+// name is fresh for every history.
+func implC07Global(toks []string) string {
+	c07GMu.Lock()
+	c07GCounter++
+	name := fmt.Sprintf("gq%d", c07GCounter)
+	c07GMu.Unlock()
+	w := c07Pool.Get().(*c07VM)
+	if _, err := w.vm.Run("O=[GLOBAL];L=[];SP=[];"); err != nil {
+		return "abort:" + c07san(err.Error())
+	}
+	var out []string
+	for i, tok := range toks {
+		f := strings.Split(tok, ".")
+		prog := ""
+		switch f[0] {
+		case "I":
+			prog = name + " = " + c07ValLit(f[1]) + "; 'ok'"
+		case "V":
+			prog = "var " + name + "; 'ok'"
+		case "Ev":
+			prog = "eval('var " + name + "'); 'ok'"
+		case "W":
+			prog = "var " + name + " = " + c07ValLit(f[1]) + "; 'ok'"
+		case "F":
+			prog = "function " + name + "(){}; 'ok'"
+		case "Ef":
+			prog = "eval('function " + name + "(){}'); 'ok'"
+		case "X":
+			prog = "(delete " + name + ")?'t':'f'"
+		case "D":
+			prog = "Object.defineProperty(this,'" + name + "'," + c07Desc(f[1:], i%4 == 3) + "); 'ok'"
+		default:
+			panic("bad op " + tok)
+		}
+		res := ""
+		v, err := w.vm.Run(prog)
+		if err != nil {
+			if strings.HasPrefix(err.Error(), "TypeError") {
+				res = "T"
+			} else {
+				res = "E:" + c07san(err.Error())
+			}
+		} else {
+			res = v.String()
+		}
+		o, err := w.vm.Run("OG('" + name + "')")
+		if err != nil {
+			return "abort:" + c07san(err.Error())
+		}
+		out = append(out, res+"|"+o.String())
+	}
+	c07Pool.Put(w)
+	if len(out) == 0 {
+		return "-"
+	}
+	return strings.Join(out, ";")
+}
+
 func implC07(line string) string {
 	f := strings.Fields(line)
-	if len(f) == 0 || f[0] != "h" {
+	if len(f) == 0 || (f[0] != "h" && f[0] != "a" && f[0] != "g") {
 		return "bad-op"
 	}
-	src := c07Script(f[1:])
+	if f[0] == "g" {
+		return implC07Global(f[1:])
+	}
+	src := ""
+	if f[0] == "a" {
+		src = c07ArgScript(f[1:])
+	} else {
+		src = c07Script(f[1:])
+	}
 	w := c07Pool.Get().(*c07VM)
 	v, err := w.vm.Run(src)
 	if err != nil {
@@ -441,7 +555,7 @@ func c07RandHistory(c *h.Ctx, r *h.Rng) string {
 		a := strconv.Itoa(r.Intn(nobj))
 		n := strconv.Itoa(r.Intn(3))
 		if r.Chance(35) {
-			n = strconv.Itoa(3 + r.Intn(len(c07Names)-3))
+			n = strconv.Itoa(3 + r.Intn(12)) // names 3..14; "0","1","callee" belong to the arguments histories
 		}
 		switch x := r.Intn(100); {
 		case x < 24:
@@ -577,6 +691,79 @@ func genC07(c *h.Ctx) {
 				}
 			}
 		}
+	}
+	// (2c) the arguments object: every descriptor shape on a mapped index, followed by parameter and element writes
+	for _, e := range tri {
+		for _, cc := range tri {
+			for _, w := range tri {
+				for _, v := range []string{"-", "4", "6"} {
+					for _, g := range []string{"-", "u", "0"} {
+						for _, s := range []string{"-", "1"} {
+							d := strings.Join([]string{e, cc, w, v, g, s}, ".")
+							c.Add("a D.15."+d+" A.0.7 P.15.8 X.15 A.0.4", "arguments:define")
+							c.Add("a A.0.7 D.15."+d+" A.0.6", "arguments:define")
+						}
+					}
+				}
+			}
+		}
+	}
+	for _, pre := range []string{"", "A.0.7 ", "P.15.7 ", "X.15 ", "D.16.-.0.-.-.-.- "} {
+		for _, op := range []string{"F", "S", "E"} {
+			c.Add("a "+pre+op+" A.0.6 A.1.6 P.15.8 P.16.8 X.15", "arguments:freeze-seal")
+		}
+	}
+	anames := []string{"15", "16", "5", "0", "17"}
+	for i := 0; i < c.N(3000, 60000); i++ {
+		var toks []string
+		for k := 1 + r.Intn(7); k > 0; k-- {
+			n := anames[r.Intn(len(anames))]
+			switch x := r.Intn(100); {
+			case x < 25:
+				toks = append(toks, "A."+c07pick(r, "0", "1")+"."+c07pick(r, c07Vals...))
+			case x < 45:
+				toks = append(toks, "P."+n+"."+c07pick(r, c07Vals...))
+			case x < 55:
+				toks = append(toks, "X."+n)
+			case x < 88:
+				d, k2 := c07RandDesc(r)
+				c.Dist[k2]++
+				toks = append(toks, "D."+n+"."+d)
+			case x < 92:
+				toks = append(toks, "F")
+			case x < 96:
+				toks = append(toks, "S")
+			default:
+				toks = append(toks, "E")
+			}
+		}
+		c.Add("a "+strings.Join(toks, " "), "arguments:history")
+	}
+	// (2d) global bindings: every pair / triple of the binding operations, then delete; and random ones
+	gops := []string{"I.4", "I.5", "V", "Ev", "W.4", "F", "Ef", "X", "D.0.0.0.6.-.-", "D.1.1.1.6.-.-", "D.1.0.1.6.-.-", "D.0.1.0.6.-.-", "D.1.1.-.-.0.1", "D.1.0.-.-.0.1", "D.1.0.-.-.0.-", "D.-.-.0.-.-.-"}
+	for _, a := range gops {
+		c.Add("g "+a+" X", "global:1")
+		for _, b2 := range gops {
+			c.Add("g "+a+" "+b2+" X I.5", "global:2")
+			if c.Thorough() {
+				for _, c3 := range gops {
+					c.Add("g "+a+" "+b2+" "+c3+" X", "global:3")
+				}
+			}
+		}
+	}
+	for i := 0; i < c.N(1500, 30000); i++ {
+		var toks []string
+		for k := 1 + r.Intn(6); k > 0; k-- {
+			if r.Chance(25) {
+				d, k2 := c07RandDesc(r)
+				c.Dist[k2]++
+				toks = append(toks, "D."+d)
+			} else {
+				toks = append(toks, gops[r.Intn(8)])
+			}
+		}
+		c.Add("g "+strings.Join(toks, " "), "global:history")
 	}
 	// (3) random histories
 	for i := 0; i < c.N(6000, 250000); i++ {
